@@ -22,8 +22,8 @@ import (
 	cppb "github.com/scionproto/scion/pkg/proto/control_plane"
 	cryptopb "github.com/scionproto/scion/pkg/proto/crypto"
 	"github.com/scionproto/scion/pkg/scrypto/cppki"
-	seg "github.com/scionproto/scion/pkg/segment"
 	"github.com/scionproto/scion/pkg/scrypto/signed"
+	seg "github.com/scionproto/scion/pkg/segment"
 	"github.com/scionproto/scion/private/segment/segverifier"
 	"github.com/scionproto/scion/private/storage/db"
 	"github.com/scionproto/scion/private/storage/trust/sqlite"
@@ -119,17 +119,17 @@ func c24MakeCred(isd c24ISD, ca *pkigen.Cert, ia addr.IA, name string, v cppki.V
 
 // c24Entry describes one AS entry and who signs it how.
 type c24Entry struct {
-	local, next      addr.IA
-	ingress, egress  uint16
-	exp              uint8
-	peers            int
-	key              *ecdsa.PrivateKey
-	alg              int64
-	claimIA          addr.IA // ISD-AS written into the verification key id
-	claimSKID        []byte
-	cred             *c24Cred // set for honest entries (key/claim derived from it)
-	omitEarlierSigs  bool     // reference signer only: leave earlier signatures out of the signature input
-	omitInfo         bool     // reference signer only: leave the segment info out of the signature input
+	local, next     addr.IA
+	ingress, egress uint16
+	exp             uint8
+	peers           int
+	key             *ecdsa.PrivateKey
+	alg             int64
+	claimIA         addr.IA // ISD-AS written into the verification key id
+	claimSKID       []byte
+	cred            *c24Cred // set for honest entries (key/claim derived from it)
+	omitEarlierSigs bool     // reference signer only: leave earlier signatures out of the signature input
+	omitInfo        bool     // reference signer only: leave the segment info out of the signature input
 }
 
 func c24Honest(c *c24Cred, next addr.IA, in, eg uint16, exp uint8, peers int) c24Entry {
